@@ -587,7 +587,13 @@ fn fix_select_exec_n(s: &mut SelectSpec, o: ExecOpts, allow_with: bool, arity: O
             let wheres: Vec<E> = c.query.wheres.iter().map(|w| if o.portable { portable_expr(w) } else { w.clone() }).collect();
             *c.query = passthrough_select(t, wheres, None);
             c.cols = vec![];
-            c.derive = false; // derived names would rename the columns the outer statement refers to
+            if c.derive {
+                // from_select derives the column list from the select list: every item is aliased with the plain column name, so the
+                // derived list keeps the names the outer statement refers to
+                for (k, it) in c.query.items.iter_mut().enumerate() {
+                    it.alias = Some(100 + k as u8);
+                }
+            }
             if o.portable {
                 c.materialized = None;
             }
